@@ -59,10 +59,14 @@ def try_patch(pids, patch, demo=None, tier="quick"):
     try:
         clean_demo = run_demo(demo) if demo else None
         r = sh(f"git -C {WT} apply {patch}")
-        if r.returncode != 0:
-            res["apply"] = "FAILED: " + r.stderr[-300:]
-            return res
         res["apply"] = "ok"
+        if r.returncode != 0:
+            # the tree moved on since the patch was written (later fix: commits): try a 3-way merge
+            r = sh(f"git -C {WT} apply -3 {patch}")
+            if r.returncode != 0 or "with conflicts" in (r.stdout + r.stderr):
+                res["apply"] = "FAILED: " + r.stderr[-300:]
+                return res
+            res["apply"] = "ok (3-way)"
         res["suite"] = run_suite()
         if demo:
             res["demo_clean_rc"] = clean_demo[0]
